@@ -46,7 +46,21 @@ DispatchLattice ==
               g \in {BN(0), BN(3008), BN(3009), BN(65536), BNMaxU32}, o \in {BN(0), BNMaxU32},
               s \in {[ok |-> TRUE, err |-> 0], [ok |-> FALSE, err |-> 51]}}
 
-MC_Cases == Ctap2Cases \cup Ctap1Cases \cup VendorCases \cup Ctap1Constructed \cup DispatchLattice
+\* ... nor on a COMBINATION of members (a sub-command together with a permission set and a
+\* missing relying party, say): every pair of members at the ends of their types, and every
+\* triple at the upper ends
+LCase(c, sv, s, lb, tag) ==
+    [op |-> "dispatch", tag |-> tag, proto |-> "ctap2", variant |-> CommandTable[c].name,
+     wire |-> HostEncode(c, sv, F), script |-> s, hasLb |-> lb]
+DispatchPairs ==
+    UNION {{LCase(c, sv, s, TRUE, "dispatch-pairs") :
+               sv \in TwoAtATime(CommandTable[c].schema, F, TRUE), s \in {[ok |-> TRUE, err |-> 0], [ok |-> FALSE, err |-> 49]}}
+           : c \in {1, 2, 6, 10, 12}}
+DispatchTriples ==
+    UNION {{LCase(c, sv, [ok |-> TRUE, err |-> 0], TRUE, "dispatch-triples") : sv \in ThreeAtATime(CommandTable[c].schema, F, TRUE)}
+           : c \in {1, 2, 6, 10, 12}}
+
+MC_Cases == Ctap2Cases \cup Ctap1Cases \cup VendorCases \cup Ctap1Constructed \cup DispatchLattice \cup DispatchPairs \cup DispatchTriples
 
 (***************************************************************************)
 (* C10 on the model                                                        *)
